@@ -48,6 +48,7 @@ type Prop struct {
 	Label          string                // variant label
 	ExtraNative    map[string]string // native test cases: case name -> Go expression of type string
 	Custom      func(r *runner, ev *evidence, pool *gosym.Pool) int // property specific deciding step (replaces the harness loop)
+	RealMeta       bool // run the real meta registry (reflection) instead of the no-op stub
 	QuickBudget    time.Duration
 	ThoroughBudget time.Duration
 }
@@ -370,6 +371,9 @@ func (r *runner) run1(ev *evidence) int {
 	r.logf("loaded %s and built SSA in %.1fs", spec.Pkg, time.Since(t0).Seconds())
 
 	cfg := &gosym.Config{MaxSteps: 20000000, MaxDepth: 4000, MaxFork: 64, SolverKind: "z3-new", TimeoutMs: 20000, InitAllow: gosym.DefaultInitAllow}
+	if r.spec.RealMeta {
+		cfg.RealMeta, cfg.InitAllow = true, gosym.MetaInitAllow
+	}
 	if s := os.Getenv("VERIF_SOLVER"); s != "" {
 		cfg.SolverKind = s
 	}
